@@ -14,6 +14,13 @@ CLAIMED = {
 CLAIMED["C07"] = ("full (ZST raw locks excluded; compile-time half via the C15 corpus)", "Theorems C07_sorting_exact, C07_retry_exact, C07_monitor: try_new accepts exactly the inputs in which no lock / owned unit is reachable twice, for every shape and address assignment; the same monitor is evaluated on try_new(..).is_some() of the implementation", "7 C07", "list lemmas: sorted => adjacent test <=> not NoDup; HashSet scan <=> not NoDup")
 CLAIMED["C08"] = ("full", "Theorems C08_sort_perm_invariant, C08_common_same_order, C08_monitor: for all shapes, listing orders, modes and address assignments two sorting collections take their common locks in the same relative order (nested boxed/ref/retrying members by their leaves, owned collections as units); the same monitor runs on the sequence of blocking raw acquisitions of the implementation", "7 C08", "sortedness + uniqueness of sorted duplicate-free lists; history proof over the model")
 CLAIMED["C06"] = ("full", "Theorem C06_one_key with no hypotheses: for every scenario and history (faults, panics, leaks included) the model satisfies the key monitor; the same monitor and a ThreadKey::get() probe after every call run on the implementation", "7 C06", "invariant by induction over histories; per-call key-effect lemma over the program syntax")
+HIST = "the whole-history statement (the Gallina monitor mon_%s) is evaluated on the model and on the implementation for every generated history and compared; its proof for all histories is the remaining obligation"
+CLAIMED["C03"] = ("partial", "call-level theorems for every shape in fault-free worlds (guard drop / unlock / scoped calls release every hold before the key is back; a lone thread never waits for itself); " + HIST % "C03", "7 C03", "structural induction over shapes / lists + differential execution of histories")
+CLAIMED["C04"] = ("partial", "call-level theorems for every shape, mode and hold table (get_ptrs enumerates exactly the leaves; lock takes all leaves or waits; try_* all-or-nothing and never waits; scoped closure under the full hold); " + HIST % "C04", "7 C04", "structural induction over shapes / lists + differential execution of histories")
+CLAIMED["C05"] = ("partial", "call-level theorems (every release is by the holder in the mode held: no audit event; guard drop and collection unlock release exactly the holds); " + HIST % "C05", "7 C05", "structural induction + differential execution with an auditing raw lock")
+CLAIMED["C10"] = ("partial; known finding F3 (scoped call of a collection containing the wrapper)", "C10_no_panic_no_poison for every call in every world; guard-panic and own-scoped-panic poisoning; poisoned acquisition still holds; C10_refuted_scoped_collection witnesses the finding; three-valued monitor (strict / relaxed) on model and implementation", "7 C10, 11", "syntactic 'handlers only' invariant + quiet-world lemmas + vm_compute witness")
+CLAIMED["C11"] = ("partial (sequential part; waiters proceed is C01)", "closure panic and guard panic release every hold once, restore the table, keep the key obtainable/usable, for every shape; handle_unwind never swallows a panic; " + HIST % "C11", "7 C11", "quiet-world lemmas over the program syntax + differential execution")
+CLAIMED["C17"] = ("partial", "Debug formatting never waits in any world and disturbs no hold; accessors issue no raw operation; " + HIST % "C17", "7 C17", "syntactic non-blocking invariant + quiet-world lemma + differential execution")
 PENDING = {}
 props = [json.loads(l) for l in open(os.path.join(V, "properties.jsonl"))]
 checks, na = [], []
